@@ -273,12 +273,14 @@ def proc_functional(
             metadata: AS.Metadata, argv: Sequence[AS.Value]
         ) -> AS.EvalContext:
             utils.check_arity(metadata, argv, 1)
-            arg = yield from (yield argv[0]).as_key()
+            key = yield argv[0]
+            arg = yield from key.as_key()
             try:
                 return fun.mapping[arg]
             except KeyError:
+                shown = yield from key.format()
                 raise error.UnsuspectedHangeulNotFoundError(
-                    metadata, f"사전에 다음 표제가 없습니다: {arg}"
+                    metadata, f"사전에 다음 표제가 없습니다: {shown}"
                 ) from None
 
         return _proc_dict
